@@ -238,6 +238,11 @@ func (c *ShadowStreamClientConn) writeToServerConn(w *ShadowStreamServerConn) (n
 		return n, err
 	}
 
+	// w sends its response header with its first write, which only w.Write knows how to do.
+	if w.ShadowStreamConn.writeCipher == nil {
+		return c.ShadowStreamConn.WriteTo(w)
+	}
+
 	return c.ShadowStreamConn.writeToShadowStreamConn(&w.ShadowStreamConn)
 }
 
